@@ -3,7 +3,7 @@
    and nothing else. *)
 From AK Require Import Base.Prelude Base.Sx Bytes.Text Bytes.FabHeader Bytes.BinFile
   Reader.Select Reader.BoxRead Reader.Level Plotfile.TextHeader Taste.Taste Writers.Colander Writers.Combine Writers.Chef Writers.Chk2plt
-  Array.Paint Mandoline.Plate Mandoline.Slice3D Whip.Whip Pestle.Pestle Point.PointQuery Menu.Menu Paths.Posix.
+  Array.Paint Mandoline.Plate Mandoline.Slice3D Mandoline.SlicePlot Whip.Whip Pestle.Pestle Point.PointQuery Menu.Menu Paths.Posix.
 
 Definition as_Zs := as_list as_Z.
 Definition as_optZ := as_opt as_Z.
@@ -462,6 +462,37 @@ Definition e_path (s : sx) : sx :=
   | _ => bad_request
   end.
 
+(* ---- C16: plotfile-format slice ----
+   sliceplot: (levels limit cn P ncomp) -> per level, per selected box: () or (lo hi ln rn ((L R) ...) per component)
+   chunks: (nboxes total_size) -> the box positions held by each binary file *)
+Definition enc_box2d (o : option box2d) : sx :=
+  match o with
+  | None => SL []
+  | Some r => SL [of_Zs (b2_lo r); of_Zs (b2_hi r); SZ (b2_left r); SZ (b2_right r);
+                  of_list (of_list (fun lr => SL [SB (fst lr); SB (snd lr)])) (b2_cells r)]
+  end.
+
+Definition e_sliceplot (s : sx) : sx :=
+  match s with
+  | SL [lvs; SZ limit; SZ cn; SZ P; SZ ncomp] =>
+      req (as_list (as_list dec_sbox) lvs)
+          (fun lvs =>
+             let cnn := Z.to_nat cn in
+             let cx := match cnn with O => 1%nat | _ => 0%nat end in
+             let cy := match cnn with 2%nat => 1%nat | _ => 2%nat end in
+             let L := Z.to_nat limit in
+             let sel := firstn (S L) lvs in
+             ok (of_list (fun kl => of_list enc_box2d (level_boxes2d L cnn cx cy P (fst kl) (Z.to_nat ncomp) (snd kl)))
+                         (combine (seq 0 (length sel)) sel)))
+  | _ => bad_request
+  end.
+
+Definition e_chunks (s : sx) : sx :=
+  match s with
+  | SL [SZ n; SZ total] => ok (of_list (of_list (fun i => SZ (Z.of_nat i))) (file_chunks (seq 0 (Z.to_nat n)) total))
+  | _ => bad_request
+  end.
+
 Definition entries : list (string * (sx -> sx)) :=
   [ ("getitem", e_getitem);
     ("iter_all", e_iter_all);
@@ -489,7 +520,9 @@ Definition entries : list (string * (sx -> sx)) :=
     ("slice3d", e_slice3d);
     ("menu", e_menu);
     ("minuterie", e_minuterie);
-    ("path", e_path)
+    ("path", e_path);
+    ("sliceplot", e_sliceplot);
+    ("chunks", e_chunks)
   ]%string.
 
 Fixpoint find_entry (name : string) (l : list (string * (sx -> sx))) : option (sx -> sx) :=
